@@ -251,11 +251,20 @@ package badger
 
 // ---- what reaches the memtable (C06, C28, C10) ----
 
-// Layout of the 12-byte value pointer (unsafe copy of the struct; assumed, little endian).
+// The 12-byte value pointer: file id, length and offset, four bytes each, in that order, as the
+// machine lays out the struct (an unsafe copy: little endian, gc layout -- assumed).
 //@ spec le32(s []byte, off int) uint32 = uint32(s[off]) | uint32(s[off+1])<<8 | uint32(s[off+2])<<16 | uint32(s[off+3])<<24
-//@ trusted func (valuePointer).Encode
-//@   ensures len(result) == 12 && fresh(result)
-//@   ensures le32(result, 0) == p.Fid && le32(result, 4) == p.Len && le32(result, 8) == p.Offset
+//@ func (valuePointer).Encode
+//@   props C20 C06
+//@   ensures[size] len(result) == 12 && fresh(result)
+//@   ensures[layout] le32(result, 0) == p.Fid && le32(result, 4) == p.Len && le32(result, 8) == p.Offset
+//@   assigns nothing
+
+//@ func (*valuePointer).Decode
+//@   props C20 C06
+//@   requires p != nil && len(b) >= 12
+//@   ensures[layout] p.Fid == old(le32(b, 0)) && p.Len == old(le32(b, 4)) && p.Offset == old(le32(b, 8))
+//@   assigns p.Fid, p.Len, p.Offset
 
 // An inline entry is stored with its value, user meta and expiry and without the pointer bit;
 // a value-log entry is stored as the pointer the value log returned for it, with the pointer
